@@ -27,6 +27,7 @@ import (
 	"time"
 
 	"github.com/jech/galene/conn"
+	"github.com/jech/galene/diskwriter"
 	"github.com/jech/galene/group"
 	"github.com/jech/galene/rtpconn"
 	"github.com/jech/galene/verifhook"
@@ -764,6 +765,90 @@ func witnessShutdown(tr *vt.Trace) {
 	flush(tr)
 }
 
+// Locks.tla, operation "last operator leaves an autokick group": DelClient re-evaluates autolock / autokick inside its critical
+// section and the kicks must not run there -- the Kick of a WHIP or recording client calls DelClient itself
+func witnessAutokick(tr *vt.Trace) {
+	name := newGroup(cfgT{Window: "open", Autokick: true}, "witness-autokick")
+	o := &fake{id: "o1"}
+	if err := join(name, o); err != nil {
+		emit(map[string]any{"ev": "witness", "name": "harness_autokick_operator_could_not_join", "completed": 1})
+		flush(tr)
+		return
+	}
+	whipMember(name, "w3")
+	g := group.Get(name)
+	diskwriter.Directory = filepath.Join(dir, "recordings")
+	if g != nil {
+		if d, err := diskwriter.New(g); err == nil {
+			u := "rec"
+			cr := pw()
+			cr.Username = &u
+			group.AddClient(name, d, group.ClientCredentials{System: true})
+		}
+	}
+	before := len(members(name))
+	ok := within(4*time.Second, func() { leave(o) })
+	res := map[string]any{"ev": "witness", "name": "selfdeadlock_last_operator_leaves_autokick_group", "completed": vt.B(ok), "members_before": before}
+	if !ok {
+		st := allStacks()
+		res["mutex_blocked"] = mutexBlocked(st)
+		res["close_blocked"], res["add_blocked"] = vt.B(blockedInMutex(st, "DelClient")), 0
+	} else {
+		time.Sleep(300 * time.Millisecond)
+		res["members_after"] = len(members(name))
+	}
+	emit(res)
+	flush(tr)
+}
+
+// readers of the chat history (what a join replays) against writers that keep a full history moving and clear it
+func historyRace(tr *vt.Trace) {
+	name := newGroup(cfgT{Window: "open"}, "history-race")
+	o := &fake{id: "o1"}
+	join(name, o)
+	g := group.Get(name)
+	if g == nil {
+		return
+	}
+	for i := 0; i < 60; i++ {
+		g.AddToChatHistory(fmt.Sprintf("h%d", i), "o1", &o.username, time.Now(), "", fmt.Sprintf("m%d", i))
+	}
+	var wg sync.WaitGroup
+	bad := atomic.Int64{}
+	for w := 0; w < 2; w++ {
+		wg.Add(1)
+		go func(w int) {
+			defer wg.Done()
+			for i := 0; i < 400; i++ {
+				g.AddToChatHistory(fmt.Sprintf("w%d-%d", w, i), "o1", &o.username, time.Now(), "", "x")
+				if i%97 == 0 {
+					g.ClearChatHistory(fmt.Sprintf("w%d-%d", w, i-1), "o1")
+				}
+			}
+		}(w)
+	}
+	for rd := 0; rd < 4; rd++ {
+		wg.Add(1)
+		go func() {
+			defer wg.Done()
+			for i := 0; i < 300; i++ {
+				h := g.GetChatHistory()
+				if len(h) > 50 {
+					bad.Add(1)
+				}
+				for _, e := range h {
+					if e.Id == "" || e.Value == nil {
+						bad.Add(1)
+					}
+				}
+			}
+		}()
+	}
+	wg.Wait()
+	emit(map[string]any{"ev": "witness", "name": "chat_history_readers_vs_writers", "completed": 1, "bad_entries": bad.Load()})
+	flush(tr)
+}
+
 func main() {
 	tr := vt.OpenTrace()
 	defer tr.Close()
@@ -812,6 +897,10 @@ func main() {
 		// one witness per process: a deadlocked group would block the next one
 		if os.Getenv("VERIF_WITNESS") == "shutdown" {
 			witnessShutdown(tr)
+		} else if os.Getenv("VERIF_WITNESS") == "autokick" {
+			witnessAutokick(tr)
+		} else if os.Getenv("VERIF_WITNESS") == "history" {
+			historyRace(tr)
 		} else {
 			witnessLockOrder(tr)
 		}
